@@ -195,19 +195,15 @@ def entryStr (en : Entry) (a : FArg) (p : Nat) (k : Unit → Option String) : Op
     some (ok (intToHex r.1 ++ " " ++ toString r.2.1 ++ " " ++ toString p ++ " " ++ flagStr r.2.2))
   | .compute => k ()
 
-def domainPanic : String := "panic DomainError(required:documented-panic-for-argument-outside-the-domain)"
-
 def unary (fn : Fn) (a : FArg) (p : Nat) (claim : Option (List String)) : Option String :=
+  if !a.x.inf ∧ !a.small then none else
   let en := match fn with
     | .exp => expEntry false a.x p
     | .expm1 => expEntry true a.x p
-    | .ln => lnEntry false a.x p
-    | .ln1p => lnEntry true a.x p
+    | .ln => lnEntry a.base false a.x p
+    | .ln1p => lnEntry a.base true a.x p
   entryStr en a p fun _ =>
-    -- outside the mathematical domain the property (C16) requires a documented panic
-    if fn == .ln ∧ a.x.sig ≤ 0 then some domainPanic
-    else if fn == .ln1p ∧ a.small ∧ a.val ≤ -1 then some domainPanic
-    else if (fn == .exp ∨ fn == .expm1) ∧ a.small ∧ absR a.val ≥ ((2 ^ 61 : Nat) : Rat) then
+    if (fn == .exp ∨ fn == .expm1) ∧ a.small ∧ absR a.val ≥ ((2 ^ 61 : Nat) : Rat) then
       -- s = floor(x / ln B) must fit `isize`; beyond that the result's exponent cannot be represented and
       -- the documented overflow panic is required (decided with an enclosure of ln B)
       let l := lnEncl (a.base : Rat) 96
